@@ -238,6 +238,10 @@ where
                                         );
                                         self.dispatcher.try_dispatch(view);
                                     }
+                                    Err(e) if e.offending_packet_is_scmp_error() => {
+                                        // Never answer an SCMP error with another SCMP error.
+                                        tracing::debug!(err=%e, "Inbound datagram check failed for an SCMP error message, not replying");
+                                    }
                                     Err(e) => {
                                         tracing::debug!(err=%e, "Inbound datagram check failed");
                                         // Use the first assigned address for the SCMP reply.
